@@ -21,7 +21,7 @@ ASSUMPTIONS = ['cost primitive = linear_fit.<metric>_points(pt, lf.linear_fit_po
 
 @st.composite
 def cases(draw, tier):
-    c = draw(S.curves(2, 40 if tier == 'quick' else 200))
+    c = draw(S.curves(2, 40 if tier == 'quick' else 200, big_n=160 if tier == 'quick' else 600))
     metric = draw(st.sampled_from(S.METRICS))
     return {'family': c['family'], 'pts': c['pts'], 'metric': metric,
             'distance': draw(st.sampled_from(S.DISTANCES)), 't': draw(S.thresholds(c['pts'], metric))}
